@@ -146,7 +146,7 @@ def coverage_guided(ctx):
     for e in table[:40]:
         pte = int(e['pattern'].replace('*', '1'), 16) if len(e['pattern']) == 8 else 0
         corpus.append(b'\x12\x34\x00\x01' + pte.to_bytes(4, 'big'))
-    return fuzz.campaign('coverage-guided', 'ilog', corpus, runs=60000, seed=ctx.seed, jobs=4, max_len=256,
+    return fuzz.campaign('coverage-guided', 'ilog', corpus, runs=12000, seed=ctx.seed, jobs=4, max_len=256,
                          sig_prefix='C14.fuzz')
 
 
